@@ -28,10 +28,13 @@ def _failing_keys(prop, overrides):
     return {o["key"]: o for o in run.failures()}
 
 
-def apply_edit(entry):
+def apply_edit(entry, current=None):
     path = os.path.join(REPO, entry["file"])
-    with open(path, encoding="utf-8") as f:
-        src = f.read()
+    if current and entry["file"] in current:
+        src = current[entry["file"]]
+    else:
+        with open(path, encoding="utf-8") as f:
+            src = f.read()
     edits = entry.get("edits") or [(entry["old"], entry["new"])]
     for old, new in edits:
         n = src.count(old)
@@ -48,7 +51,7 @@ def run_entry(entry):
     try:
         ov = {}
         for e in [entry] + entry.get("also", []):
-            ov.update(apply_edit(e))
+            ov.update(apply_edit(e, ov))
     except LookupError as e:
         return name, "SKIP", str(e)
     try:
